@@ -149,8 +149,8 @@ def constructed_pair(rng):
 def touching_pair(rng):
     """polygon B with some vertices exactly on edges of polygon A (rational points), the others
     pushed inside or outside: contact configurations decided exactly by the oracle"""
-    num = rng.choice(["frac", "frac", "int"])
-    base, _ = G.random_polygon(rng, num, (0, 0), 10.0 if num != "int" else 40.0, family=rng.choice(["rectilinear", "star", "star", "convex"]))
+    num = "frac"
+    base, _ = G.random_polygon(rng, num, (0, 0), 10.0, family=rng.choice(["rectilinear", "rectilinear", "star", "star", "convex"]))
     verts = [(G.exact(x), G.exact(y)) for x, y in base["v"]]
     n = len(verts)
     cx = sum(v[0] for v in verts) / n
@@ -162,7 +162,7 @@ def touching_pair(rng):
         a, b = verts[i], verts[(i + 1) % n]
         t = Fr(rng.randint(1, 7), 8)
         p = (a[0] + t * (b[0] - a[0]), a[1] + t * (b[1] - a[1]))
-        mode = rng.choice(["on", "on", "in", "out", "vertex"])
+        mode = rng.choice(["on", "on", "on", "in", "out", "vertex"])
         if mode == "vertex":
             p = a
         elif mode == "in":
@@ -224,11 +224,16 @@ def case(ctx):
     import shapepy
 
     rng = ctx.rng
-    mode = rng.choice(["random", "random", "constructed", "constructed", "singleton", "curve"])
+    mode = rng.choice(["random", "random", "constructed", "constructed", "singleton", "curve", "touching", "touching"])
     how = mode
     expected = None
-    if mode == "constructed" and rng.random() < 0.25:
-        got = touching_pair(rng)
+    if mode == "touching" or (mode == "constructed" and rng.random() < 0.1):
+        mode = "constructed"
+        got = None
+        for _ in range(6):
+            got = touching_pair(rng)
+            if got is not None:
+                break
         if got is None:
             got = constructed_pair(rng)
         else:
